@@ -28,10 +28,14 @@ def digest (st : State) : String :=
   let s := st.srv
   let conns := "[" ++ ",".intercalate (s.conns.map (fun c => s!"{c.id}@{c.owner}")) ++ "]"
   let ftpc := match s.ftpc with
-    | some f => showSvc f ++ (if s.ftpcFix.isSome then ":FIXING" else if s.ftpcComp then ":COMPROMISED" else ":GOOD") ++ ":" ++ showBool s.ftpConn
+    | some f => showSvc f ++ (if f = SvcState.restarting then s!"({s.ftpcRestartCd})" else "") ++
+        (match s.ftpcFix with | some n => s!":FIXING({n})" | none => if s.ftpcComp then ":COMPROMISED" else ":GOOD") ++ ":" ++ showBool s.ftpConn
     | none => "-"
   let dels (l : List FHealth) := "/".intercalate (l.map (fun h => showF (some h)))
-  let svc := if s.installed then s!"{showSvc s.op},{showH s.health}" else "absent,absent"
+  -- the countdowns are shown while they are live (round 7): RESTARTING(n), FIXING(n)
+  let rst := if s.op = .restarting then s!"({s.restartCd})" else ""
+  let fix := if s.health = .fixing then s!"({s.fixCd})" else ""
+  let svc := if s.installed then s!"{showSvc s.op}{rst},{showH s.health}{fix}" else "absent,absent"
   let srv := s!"srv:{showP s.node.st},{svc},{showF s.file},{showF s.downloads},{conns},ftpc={ftpc},port={showBool s.listening},dl={showBool s.dlFolder},del={dels s.fileDeleted};{dels s.dlDeleted}"
   let bk := s!"bk:{showP st.bk.node.st},{showSvc st.bk.ftps},{showF st.bk.stored},orph={st.bk.orphans.length}"
   let cl := st.clients.map (fun c =>
